@@ -536,6 +536,7 @@ macro_rules! logistic_for {
                     ("alpha2_iter20", MultiLogisticRegression::default().alpha(2.0).max_iterations(20)),
                     ("initial_params", MultiLogisticRegression::default().initial_params(Array2::from_shape_fn((3, 3), |(i, j)| (0.1 * i as f64 - 0.2 * j as f64) as F))),
                     ("alpha0_iter0_no_intercept_zero_initial_params", MultiLogisticRegression::default().alpha(0.0).max_iterations(0).with_intercept(false).initial_params(Array2::zeros((2, 3)))),
+                    ("column_major_initial_params", MultiLogisticRegression::default().initial_params(to_f_order(&Array2::from_shape_fn((3, 3), |(i, j)| (0.3 * i as f64 - 0.1 * j as f64 + 0.05) as F)))),
                     ("invalid_gradient_tolerance", MultiLogisticRegression::default().gradient_tolerance(0.0)),
                 ]
             }
@@ -580,6 +581,9 @@ macro_rules! logistic_for {
                     ob.done()
                 };
                 round_trip(o, &Spec::full(&obs), &p);
+                if format!("{:?}", p).contains("layout=Ff") {
+                    narrow_layout_dependent_refit(o, "refit.last_bits_depend_on_memory_layout_of_initial_params");
+                }
             }
 
             pub fn valid_bin(o: &mut Out, p: LogisticRegression<F>) {
@@ -596,6 +600,9 @@ macro_rules! logistic_for {
                 let v = o.need("check", p.check());
                 let obs = |v: &ValidMultiLogisticRegression<F>| valid_obs_multi(v, &x, &y, &q);
                 round_trip(o, &Spec::full(&obs), &v);
+                if format!("{:?}", v).contains("layout=Ff") {
+                    narrow_layout_dependent_refit(o, "refit.last_bits_depend_on_memory_layout_of_initial_params");
+                }
             }
         }
     };
